@@ -50,6 +50,7 @@ def execute(prop, tier, seed, sc, topo, disconnect=False):
         x["disconnect"] = -1
         x["late"] = {}
         x["splittimer"] = 0
+        x["splitverdict"] = 0
     # late expiry: the timeout elapses in real time after some verdicts were delivered and before the write is decided
     late = []
     for x in scheds:
@@ -65,6 +66,11 @@ def execute(prop, tier, seed, sc, topo, disconnect=False):
     # split timer: the steps that follow a timer callback in the schedule run while the callback is inside its send
     split = [dict(x, splittimer=k) for x in scheds for k in (1, 2) if not x["late"] and any(n.startswith("t:") and i + k < len(x["sched"]) + 1 and i + 1 < len(x["sched"]) for i, n in enumerate(x["sched"]))]
     scheds += rnd.sample(split, min(len(split), 150 if quick else 1500))
+    # split verdict: a deciding verdict is parked once more behind its timer stop (holding the decision lock) while the next
+    # one or two steps - a timer callback among them - run
+    splitv = [dict(x, splitverdict=k) for x in scheds for k in (1, 2) if not x["late"] and not x.get("splittimer")
+              and any(n.startswith("t:") for n in x["sched"][1:]) and any(n.startswith("v:") for n in x["sched"][:-1])]
+    scheds += rnd.sample(splitv, min(len(splitv), 150 if quick else 1500))
     if disconnect:
         d = [dict(x, disconnect=rnd.choice([0, len(x["sched"]) // 2])) for x in scheds if any(x["expires"].values())]
         scheds = rnd.sample(d, min(len(d), 150 if quick else 1500))
@@ -102,7 +108,7 @@ def execute(prop, tier, seed, sc, topo, disconnect=False):
         seen.add(key)
         viol += 1
         o = x["observed"]
-        path = write_replay(prop, "approval_%d" % viol, {"property": prop, "config": dict({k: o[k] for k in ("verdict", "expires", "sched", "disconnect")}, splittimer=o.get("splittimer", 0), late=o.get("late", {})),
+        path = write_replay(prop, "approval_%d" % viol, {"property": prop, "config": dict({k: o[k] for k in ("verdict", "expires", "sched", "disconnect")}, splittimer=o.get("splittimer", 0), splitverdict=o.get("splitverdict", 0), late=o.get("late", {})),
                             "defects": x["defects"], "observed": {k: o[k] for k in ("outcomes", "presented", "data", "afterdisc", "panic", "realised")},
                             "how": "harness approval-replay"})
         print("VIOLATION property=%s replay=%s" % (prop, path))
